@@ -3,6 +3,7 @@ package props
 import (
 	"bytes"
 	"fmt"
+	"io"
 
 	"github.com/Comcast/gots/v2/packet"
 	"github.com/Comcast/gots/v2/pes"
@@ -135,4 +136,23 @@ func witnessPES() func(res *engine.Result) {
 			res.Failf("witness|Packet|changed-by-unrelated-calls", "a packet that the case never touched was modified")
 		}
 	}
+}
+
+// nestReader forwards to inner; on its at-th Read (1-based) it first runs do. It stands for a source
+// that itself uses the library (on another stream) while a reading function is waiting for it.
+type nestReader struct {
+	inner io.Reader
+	at    int
+	do    func()
+	calls int
+}
+
+func (n *nestReader) Read(p []byte) (int, error) {
+	if len(p) > 0 {
+		n.calls++
+		if n.calls == n.at {
+			n.do()
+		}
+	}
+	return n.inner.Read(p)
 }
